@@ -30,7 +30,13 @@ theorem C14_source_filters :
 def currentVariant : Kind → Variant
   | .erdos => if Gen.erdosUsesPositions then .asis else .spec
   | .disk => if Gen.diskUsesPositions then .asis else .spec
+  | .randomPlain => if Gen.randomPlainCountsAllPeople then .asis else .spec
   | _ => .spec
+
+/-- The source as it is now builds ErdosRenyiNet and DiskNet endpoints from identifiers (repaired in /repo commit
+    d09c6aa), so the full `spec` theorems below are the ones that apply to those classes.  (Obligation on the
+    regenerated file: it stops elaborating if positions come back.) -/
+theorem C14_source_endpoints_by_uid : currentVariant .erdos = .spec ∧ currentVariant .disk = .spec := by decide
 
 /-! ### Equal column lengths -/
 
@@ -165,6 +171,43 @@ theorem C14_timed_edges (dt : Rat) (hdt : 0 < dt) (alive : Nat → Bool) (a b : 
     try rfl
   simp only [this]
 
+/-- **Timed edges, table level, networks on their own timestep.**  `dt` is the NETWORK's timestep (the amount
+    `end_pairs` subtracts: `Gen.endPairsDur = "dur-dt"` with `dt = self.t.dt`), a step is one update of the network.
+    If the table holds `old ++ created` right after the step that created `created`, then after `k` further updates
+    (each with its own set of living agents and its own new edges) the table is
+    `aged old ++ aged created ++ (what those updates added)`: the edges created at step `s` appear at step `s + k`
+    exactly as their `k`-times aged versions, contiguous and in their original order. -/
+theorem C14_timed_edges_table (dt : Rat) (old created : List (Nat × Nat × Rat))
+    (steps : List ((Nat → Bool) × List (Nat × Nat × Rat))) :
+    runRowsL dt (old ++ created) steps =
+      old.filterMap (ageRowL dt (steps.map (·.1))) ++ created.filterMap (ageRowL dt (steps.map (·.1))) ++ runRowsL dt [] steps := by
+  rw [runRowsL_split, List.append_assoc]
+  congr 1
+  have := runRowsL_split dt steps created []
+  simpa using this
+
+/-- … and an edge `(a, b, d)` whose endpoints are alive at each of those `k` updates is among them iff `k = 0` or
+    `k < ⌈d/dt⌉` (`d` and `dt` in the network's unit), with remaining duration `d − k·dt`. -/
+theorem C14_timed_edges_own_dt (dt : Rat) (hdt : 0 < dt) (a b : Nat) (d : Rat) (als : List (Nat → Bool))
+    (h : ∀ al ∈ als, al a = true ∧ al b = true) :
+    ageRowL dt als (a, b, d) =
+      if als.length = 0 ∨ (als.length : Int) < (d / dt).ceil then some (a, b, d - als.length * dt) else none := by
+  rw [ageRowL_alive dt hdt a b als d h]
+  have : ((als.length : Int) < (d / dt).ceil) ↔ ((als.length : Rat) * dt < d) := by
+    rw [Rat.lt_ceil_iff, Rat.lt_div_iff hdt]
+    try rfl
+  simp only [this]
+
+/-- one network update of a dynamic table, in rows: `step()` = `end_pairs` then `append` -/
+theorem C14_step_rows {t t' : Table} {a b : List Nat} {c : Choice} (dt : Rat) (alive : Nat → Bool) (hw : t.WF)
+    (hd : t.keys.dur = true) (hab : a.length = b.length) (h : (t.endPairs dt alive).append (mkCols a b c) = .ok t') :
+    t'.rows = t.rows.filterMap (ageRow dt alive) ++ a.zip (b.zip ((List.range a.length).map c.durAt)) := by
+  have hw' : (t.endPairs dt alive).WF := by
+    have g : ({ t with dur := t.dur.map (· - dt) } : Table).WF := by
+      obtain ⟨w2, w3, w4, w5, w6, w7⟩ := hw; exact ⟨w2, w3, by simpa using w4, w5, w6, w7⟩
+    exact Table.mask_WF _ _ g
+  rw [Table.rows_append hw' hd hab h, Table.endPairs_rows]
+
 /-- an edge with a dead endpoint does not survive `end_pairs` -/
 theorem C14_dead_endpoint_ends (dt : Rat) (alive : Nat → Bool) (a b : Nat) (d : Rat)
     (h : alive a = false ∨ alive b = false) : ageRow dt alive (a, b, d) = none := by
@@ -260,7 +303,50 @@ theorem C14_random_degree {n : Net} {p : Pop} {c : Choice} {a b : List Nat} (hk 
     simp [List.mem_filter, and_assoc]
   · simp at h
 
+/-! ### RandomNet with a plain-number `n_contacts` -/
+
+/-- **Plain-number contacts (partial).** When every active agent is eligible (`alive ∧ age > 0`) — no newborn of age 0,
+    nobody unborn — the position-indexed contact counts have no entries beyond the eligible agents, and today's
+    code (`asis`) builds the same source as the repaired one (`spec`), for which `C14_endpoints_active` holds. -/
+theorem C14_random_plain_partial (born counts : List Nat) (h : counts.length ≤ born.length) :
+    plainSource .asis born counts = plainSource .spec born counts := plainSource_asis_eq_spec h
+
+/-- **Plain-number contacts (counterexample).** Three agents; agent 0 dies and is removed, a newborn of age 0 joins:
+    the contact count of the third active position has no eligible agent to go to, its slot keeps the initial value 0
+    and the network gets an edge from the removed agent 0. -/
+theorem C14_random_plain_counterexample :
+    simulate 3 (fun _ => false) (fun _ => 1) .randomPlain .asis { counts := [1, 1, 1], target := [2, 1, 0] }
+      [.die [0], .removeDead, .grow 1 (fun _ => false) (fun _ => 0),
+       .netStep 1 1 { counts := [1, 1, 1], target := [0, 2, 1] }] =
+    .ok { auids := [1, 2, 3], p1 := [1, 2, 0], p2 := [0, 2, 1], beta := [1, 1, 1], dur := [0, 0, 0], stop := [], wf := true } := by
+  decide +kernel
+
+/-- the repaired variant rejects a target that mentions the filler -/
+example : simulate 3 (fun _ => false) (fun _ => 1) .randomPlain .spec { counts := [1, 1, 1], target := [2, 1, 0] }
+      [.die [0], .removeDead, .grow 1 (fun _ => false) (fun _ => 0),
+       .netStep 1 1 { counts := [1, 1, 1], target := [2, 1] }] =
+    .ok { auids := [1, 2, 3], p1 := [1, 2], p2 := [2, 1], beta := [1, 1], dur := [0, 0], stop := [], wf := true } := by
+  decide +kernel
+
+/-! ### Mixing pools -/
+
+/-- `remove_uids` of a MixingPool leaves no removed agent in an explicit group, and removes nobody else -/
+theorem C14_pool_removed_vanish (l uids : List Nat) (u : Nat) : u ∈ setdiff l uids ↔ u ∈ l ∧ u ∉ uids := mem_setdiff
+
+/-- **Pools.** After any history of births, deaths and removals every member of an explicit-uid group of a MixingPool /
+    MixingPools is an active agent. -/
+theorem C14_pool_members_active (ops : List Op) (w : PoolWorld) (h : PoolOK w) : PoolOK (w.run ops) :=
+  PoolWorld.run_ok ops h
+
+example : ((PoolWorld.mk (Pop.fresh 4 (fun _ => false) (fun _ => 1)) ⟨[[3, 0, 1], [2, 3]]⟩).run
+    [.die [3, 0], .removeDead]).pool.groups = [[1], [2]] := by decide +kernel
+
 /-! ### Non-vacuity -/
+
+/-- a network on its own timestep 1/2: an edge of duration 1.3 is present after 0, 1, 2 updates and gone after 3 = ⌈2.6⌉ -/
+example : (List.range 5).map (fun k => (ageRowL (1 / 2) (List.replicate k (fun _ => true)) (7, 8, 13 / 10)).isSome) =
+    [true, true, true, false, false] := by decide +kernel
+
 
 def demoFemale : Nat → Bool := fun u => u % 2 == 0
 def demoChoice : Choice := { participant := fun _ => true, debut := fun _ => 15, durAt := fun _ => 2, pick := [0, 2] }
